@@ -23,8 +23,8 @@ import (
 // (serial: hex of the big-endian number, `-` = 0; list attributes: `_` = absent, otherwise comma-joined hex
 // values with `-` for an empty value; CN / SERIALNUMBER: hex, `-` = absent).
 type certDesc struct {
-	Serial  []byte
-	KeySeed []byte
+	Serial                          []byte
+	KeySeed                         []byte
 	C, ST, L, Street, Postal, O, OU [][]byte
 	CN, SN                          []byte
 }
@@ -143,14 +143,21 @@ func canonCert(d certDesc) certDesc {
 	return d
 }
 
-// authority is the harness' own CA (ed25519 key from a seed).
+// authority is the harness' own CA (ed25519 keys from a seed): a root – the only certificate servers trust – and,
+// for the chain shapes, an intermediate CA that issues the client certificates; clients then send
+// `leaf, intermediate` (and whatever `appended` holds: certificates a client adds to what it sends).
 type authority struct {
-	cert *x509.Certificate
-	key  ed25519.PrivateKey
-	pool *x509.CertPool
+	cert     *x509.Certificate
+	key      ed25519.PrivateKey
+	pool     *x509.CertPool
+	inter    *x509.Certificate
+	interKey ed25519.PrivateKey
+	appended [][]byte
 }
 
-func newAuthority(seed []byte) *authority {
+func newAuthority(seed []byte) *authority { return newAuthorityShape(seed, false) }
+
+func newAuthorityShape(seed []byte, intermediate bool) *authority {
 	s := make([]byte, ed25519.SeedSize)
 	copy(s, seed)
 	key := ed25519.NewKeyFromSeed(s)
@@ -162,18 +169,34 @@ func newAuthority(seed []byte) *authority {
 	must(err)
 	pool := x509.NewCertPool()
 	pool.AddCert(cert)
-	return &authority{cert: cert, key: key, pool: pool}
+	a := &authority{cert: cert, key: key, pool: pool}
+	if intermediate {
+		is := make([]byte, ed25519.SeedSize)
+		copy(is, append([]byte("intermediate"), seed...))
+		a.interKey = ed25519.NewKeyFromSeed(is)
+		itpl := &x509.Certificate{SerialNumber: big.NewInt(3), Subject: pkix.Name{CommonName: "verif harness intermediate CA", Organization: []string{"verif"}},
+			NotBefore: certNotBefore, NotAfter: certNotAfter, IsCA: true, BasicConstraintsValid: true, KeyUsage: x509.KeyUsageCertSign | x509.KeyUsageDigitalSignature}
+		ider, err := x509.CreateCertificate(rand.Reader, itpl, cert, a.interKey.Public(), key)
+		must(err)
+		a.inter, err = x509.ParseCertificate(ider)
+		must(err)
+	}
+	return a
 }
 
-// issue signs a leaf for the description (client certificate) or the server certificate for `localhost`.
+// issue signs a leaf for the description (client certificate: by the intermediate when there is one; what the
+// client sends is leaf, intermediate, appended…) or the server certificate for `localhost` (by the root).
 func (a *authority) issue(d certDesc, server bool) (tls.Certificate, *x509.Certificate, error) {
 	key := d.key()
 	tpl := d.template()
+	parent, signer := a.cert, a.key
 	if server {
 		tpl.ExtKeyUsage = []x509.ExtKeyUsage{x509.ExtKeyUsageServerAuth}
 		tpl.DNSNames = []string{"localhost"}
+	} else if a.inter != nil {
+		parent, signer = a.inter, a.interKey
 	}
-	der, err := x509.CreateCertificate(rand.Reader, tpl, a.cert, key.Public(), a.key)
+	der, err := x509.CreateCertificate(rand.Reader, tpl, parent, key.Public(), signer)
 	if err != nil {
 		return tls.Certificate{}, nil, err
 	}
@@ -181,7 +204,16 @@ func (a *authority) issue(d certDesc, server bool) (tls.Certificate, *x509.Certi
 	if err != nil {
 		return tls.Certificate{}, nil, err
 	}
-	return tls.Certificate{Certificate: [][]byte{der}, PrivateKey: key, Leaf: leaf}, leaf, nil
+	sent := [][]byte{der}
+	if !server && a.inter != nil {
+		sent = append(sent, a.inter.Raw)
+		for _, x := range a.appended {
+			if !bytes.Equal(x, der) {
+				sent = append(sent, x)
+			}
+		}
+	}
+	return tls.Certificate{Certificate: sent, PrivateKey: key, Leaf: leaf}, leaf, nil
 }
 
 // newExtractor builds the extractor the way acra-server / acra-translator do at start-up.
@@ -291,9 +323,15 @@ func certFamily(rd *core.Rand) (fam []certDesc, kinds []string) {
 	}
 	fam, kinds = append(fam, base), append(kinds, "base")
 	add("same-cn-other-ou", func(d *certDesc) { d.OU = append([][]byte{dnValue(rd)}, d.OU...); d.Serial = randSerial(rd) })
-	add("same-cn-other-o", func(d *certDesc) { d.O = [][]byte{[]byte(fmt.Sprintf("org-%x", rd.Bytes(2)))}; d.Serial = randSerial(rd) })
+	add("same-cn-other-o", func(d *certDesc) {
+		d.O = [][]byte{[]byte(fmt.Sprintf("org-%x", rd.Bytes(2)))}
+		d.Serial = randSerial(rd)
+	})
 	add("same-dn-other-serial", func(d *certDesc) { d.Serial = randSerial(rd) })
-	add("other-cn-only", func(d *certDesc) { d.CN = append(append([]byte{}, d.CN...), byte('0'+rd.Intn(10))); d.Serial = randSerial(rd) })
+	add("other-cn-only", func(d *certDesc) {
+		d.CN = append(append([]byte{}, d.CN...), byte('0'+rd.Intn(10)))
+		d.Serial = randSerial(rd)
+	})
 	add("same-dn-same-serial-other-key", func(d *certDesc) {})
 	switch rd.Intn(5) {
 	case 0:
@@ -310,7 +348,12 @@ func certFamily(rd *core.Rand) (fam []certDesc, kinds []string) {
 		add("ou-one-value-with-separator", func(d *certDesc) { d.OU = [][]byte{[]byte("x+OU=y")}; d.Serial = randSerial(rd) })
 	case 2:
 		add("cn-with-comma", func(d *certDesc) { d.CN = []byte("a,O=b"); d.O = nil; d.OU = nil; d.Serial = randSerial(rd) })
-		add("cn-and-o", func(d *certDesc) { d.CN = []byte("a"); d.O = [][]byte{[]byte("b")}; d.OU = nil; d.Serial = randSerial(rd) })
+		add("cn-and-o", func(d *certDesc) {
+			d.CN = []byte("a")
+			d.O = [][]byte{[]byte("b")}
+			d.OU = nil
+			d.Serial = randSerial(rd)
+		})
 	case 3:
 		add("serial-neighbour", func(d *certDesc) {
 			n := new(big.Int).Add(new(big.Int).SetBytes(d.Serial), big.NewInt(1))
@@ -333,6 +376,7 @@ func certFamily(rd *core.Rand) (fam []certDesc, kinds []string) {
 // ops
 
 func modeName(s string) string {
+	s, _, _ = strings.Cut(s, "+") // "dn+inter", "serial+inter+other": the part after `+` is the certificate chain shape of a server
 	switch s {
 	case "dn":
 		return network.IdentifierExtractorTypeDistinguishedName
